@@ -24,7 +24,7 @@ func (e *Engine) newCtx(fi *FuncInfo, con *Contract) *FCtx {
 	c := &FCtx{eng: e, fi: fi, con: con, info: fi.Pkg.TypesInfo, pkg: fi.Pkg.Types, prop: e.prop,
 		params: map[string]types.Object{}, entryVal: map[string]Val{}, notes: map[string]bool{},
 		globals: map[types.Object]int{}, oblSeen: map[string]int{}, inputs: map[string]*Term{},
-		rangeCtr: map[ast.Node]types.Object{}}
+		rangeCtr: map[ast.Node]types.Object{}, pow2Of: map[*Term]*Term{}, maskOf: map[*Term]*Term{}}
 	c.curFI, c.curCon = fi, con
 	c.curSig = fi.Obj.Type().(*types.Signature)
 	c.curFunc = fi.Key
@@ -160,11 +160,13 @@ func (c *FCtx) run(alias [2]string) {
 	for _, n := range order {
 		obj := c.params[n]
 		var v Val
+		other := ""
 		if alias[0] != "" && n == alias[1] {
-			first, ok := vals[alias[0]]
-			if !ok {
-				fail("alias %s %s: %s must be declared before %s", alias[0], alias[1], alias[0], alias[1])
-			}
+			other = alias[0]
+		} else if alias[0] != "" && n == alias[0] {
+			other = alias[1]
+		}
+		if first, ok := vals[other]; ok && other != "" {
 			switch x := first.(type) {
 			case PV:
 				v = PV{Cell: x.Cell, Path: x.Path, IsNil: x.IsNil, Typ: obj.Type()}
@@ -178,6 +180,13 @@ func (c *FCtx) run(alias [2]string) {
 			}
 		} else {
 			v = c.freshVal(st, n, obj.Type())
+			if lv, isLV := v.(LV); isLV && other != "" && !lv.Str {
+				// the first of two aliased slices: an arbitrary window of the shared backing store
+				off := Sym(c.freshName(n+"$off"), SInt)
+				st.assume(Le(Num(0), off))
+				lv.Off = off
+				v = lv
+			}
 		}
 		vals[n] = v
 		c.declare(st, obj, v)
@@ -361,6 +370,84 @@ func (c *FCtx) checkFrame(f Flow, atPanic bool) {
 	}
 }
 
+// frameRegions: the assigns clause evaluated in the entry state, grouped by cell.
+func (c *FCtx) frameRegions() map[int][]Region {
+	byCell := map[int][]Region{}
+	env := c.exitEnv(c.entry, nil)
+	env.old = c.entry
+	for _, a := range c.con.Assigns {
+		r := env.region(a.E)
+		r.Src = a.Src
+		byCell[r.Cell] = append(byCell[r.Cell], r)
+	}
+	return byCell
+}
+
+// autoFrame: for the caller-visible array cells in ids, "everything outside the assigns clause still has its
+// entry value" as a quantified formula.  Proved at loop entry and after the body, assumed at the loop head, so
+// contracts do not have to repeat frame conditions in every loop invariant.
+func (c *FCtx) autoFrame(st *State, ids []int) []*Term {
+	if c.inlineDepth > 0 || c.con == nil {
+		return nil
+	}
+	varCells := map[int]bool{}
+	for _, id := range c.entry.vars {
+		varCells[id] = true
+	}
+	var out []*Term
+	var regs map[int][]Region
+	for _, id := range ids {
+		ev, ok := c.entry.cells[id]
+		if !ok || varCells[id] {
+			continue
+		}
+		cv := st.cells[id]
+		if sameVal(ev, cv) {
+			continue
+		}
+		var a, b *Term
+		switch x := ev.(type) {
+		case MV:
+			y, ok := cv.(MV)
+			if !ok {
+				continue
+			}
+			a, b = x.T, y.T
+		case AV:
+			y, ok := cv.(AV)
+			if !ok {
+				continue
+			}
+			a, b = x.T, y.T
+		default:
+			continue
+		}
+		if regs == nil {
+			regs = c.frameRegions()
+		}
+		q := Sym(c.freshName("q"), SInt)
+		var outside []*Term
+		full := false
+		for _, r := range regs[id] {
+			switch {
+			case len(r.Path) == 0 && !r.Ranged:
+				full = true
+			case len(r.Path) == 0 && r.Ranged:
+				outside = append(outside, Or(Lt(q, r.Lo), Ge(q, r.Hi)))
+			case len(r.Path) == 1 && r.Path[0].IsIdx && !r.Ranged:
+				outside = append(outside, Ne(q, r.Path[0].Idx))
+			default:
+				full = true // shapes the frame check handles element-wise are not auto-framed
+			}
+		}
+		if full {
+			continue
+		}
+		out = append(out, Forall([]*Term{q}, Implies(And(outside...), Eq(Select(b, q), Select(a, q))), Select(b, q)))
+	}
+	return out
+}
+
 func (c *FCtx) cellDesc(id int) string {
 	// describe an entry cell by the parameter that reaches it
 	for n, obj := range c.params {
@@ -473,7 +560,7 @@ func (e *Engine) lemmaObligation(l *Lemma) (o *Obligation, err error) {
 			panic(r)
 		}
 	}()
-	c := &FCtx{eng: e, prop: e.prop, notes: map[string]bool{}, globals: map[types.Object]int{}, oblSeen: map[string]int{}, rangeCtr: map[ast.Node]types.Object{}}
+	c := &FCtx{eng: e, prop: e.prop, notes: map[string]bool{}, globals: map[types.Object]int{}, oblSeen: map[string]int{}, rangeCtr: map[ast.Node]types.Object{}, pow2Of: map[*Term]*Term{}, maskOf: map[*Term]*Term{}}
 	st := &State{vars: map[types.Object]int{}, cells: map[int]Val{}, written: map[int]bool{}}
 	c.entry = st
 	// lemmas may name constants of any package through a qualifier; default package: dilithium
